@@ -89,3 +89,14 @@ package snowflake_proxy
 //@   flag nosafety safety-close
 //@   assumes dataChan != nil && (closed(dataChan) ==> oncedone(&dataChanOnce))
 //@   ensures {at-most-one-handler-per-peer-connection} spawns(handler) <= 1 && (spawns(handler) == 1 ==> !old(closed(dataChan)))
+//
+// Untrusted SDP (C13): extracting the peer address from ANY SDP text returns an address or nil and cannot panic
+// (safety sweep on: nil candidate, submatch index).
+//@ func remoteIPFromSDP(str string) (ip net.IP)
+//@   props C13
+//
+// RemoteAddr is nil-safe towards its caller: nil or a non-nil *net.IPAddr.
+//@ func (c *webRTCConn) RemoteAddr() (a net.Addr)
+//@   props C13
+//@   flag nosafety
+//@   ensures {nil-or-ip-address} a == nil || tagis(a, *net.IPAddr)
